@@ -14,30 +14,32 @@ From GA.Proofs Require Import SWProofs.
 Local Open Scope Z_scope.
 
 (* ---- shape of the trace matrix and of the recorded maximum ------------------------------------------------ *)
-Lemma first_row_spec sc : forall scores pv pt j,
-  length (first_row sc scores pv pt j) = length scores /\
-  Forall (fun c => snd (fst c) = T_DIAG \/ snd (fst c) = T_LEFT) (first_row sc scores pv pt j).
+Lemma first_row_spec sc : forall scores pv bx j,
+  length (first_row sc scores pv bx j) = length scores /\
+  Forall (fun c => snd (fst c) = T_DIAG \/ snd (fst c) = T_LEFT) (first_row sc scores pv bx j).
 Proof.
-  induction scores as [|m t IH]; intros pv pt j; cbn [first_row]; [split; [reflexivity | constructor]|].
-  set (fnew := if Nat.eqb j 0 then 0 else pv + (if Z.eqb pt T_LEFT then sc_extend sc else sc_open sc)).
+  induction scores as [|m t IH]; intros pv bx j; cbn [first_row]; [split; [reflexivity | constructor]|].
+  set (bx' := if Nat.eqb j 0 then None else Some (gap_acc sc bx pv)).
+  set (fnew := match bx' with None => 0 | Some b => b end).
   destruct ((fnew <? m) && (0 <? m)).
-  - destruct (IH m T_DIAG (S j)) as [L Fa]. split; [cbn [length]; rewrite L; reflexivity|]. constructor; [left; reflexivity | exact Fa].
+  - destruct (IH m bx' (S j)) as [L Fa]. split; [cbn [length]; rewrite L; reflexivity|]. constructor; [left; reflexivity | exact Fa].
   - destruct (0 <? fnew).
-    + destruct (IH fnew T_LEFT (S j)) as [L Fa]. split; [cbn [length]; rewrite L; reflexivity|]. constructor; [right; reflexivity | exact Fa].
-    + destruct (IH 0 T_DIAG (S j)) as [L Fa]. split; [cbn [length]; rewrite L; reflexivity|]. constructor; [left; reflexivity | exact Fa].
+    + destruct (IH fnew bx' (S j)) as [L Fa]. split; [cbn [length]; rewrite L; reflexivity|]. constructor; [right; reflexivity | exact Fa].
+    + destruct (IH 0 bx' (S j)) as [L Fa]. split; [cbn [length]; rewrite L; reflexivity|]. constructor; [left; reflexivity | exact Fa].
 Qed.
 
-Lemma first_col_spec sc : forall scores pv pt i,
-  length (first_col sc scores pv pt i) = length scores /\
-  Forall (fun c => snd c = T_DIAG \/ snd c = T_UP) (first_col sc scores pv pt i).
+Lemma first_col_spec sc : forall scores pv ma i,
+  length (first_col sc scores pv ma i) = length scores /\
+  Forall (fun c => snd c = T_DIAG \/ snd c = T_UP) (first_col sc scores pv ma i).
 Proof.
-  induction scores as [|m t IH]; intros pv pt i; cbn [first_col]; [split; [reflexivity | constructor]|].
-  set (fnew := if Nat.eqb i 0 then 0 else pv + (if Z.eqb pt T_UP then sc_extend sc else sc_open sc)).
+  induction scores as [|m t IH]; intros pv ma i; cbn [first_col]; [split; [reflexivity | constructor]|].
+  set (ma' := if Nat.eqb i 0 then None else Some (gap_acc sc ma pv)).
+  set (fnew := match ma' with None => 0 | Some b => b end).
   destruct ((fnew <? m) && (0 <? m)).
-  - destruct (IH m T_DIAG (S i)) as [L Fa]. split; [cbn [length]; rewrite L; reflexivity|]. constructor; [left; reflexivity | exact Fa].
+  - destruct (IH m ma' (S i)) as [L Fa]. split; [cbn [length]; rewrite L; reflexivity|]. constructor; [left; reflexivity | exact Fa].
   - destruct (0 <? fnew).
-    + destruct (IH fnew T_UP (S i)) as [L Fa]. split; [cbn [length]; rewrite L; reflexivity|]. constructor; [right; reflexivity | exact Fa].
-    + destruct (IH 0 T_DIAG (S i)) as [L Fa]. split; [cbn [length]; rewrite L; reflexivity|]. constructor; [left; reflexivity | exact Fa].
+    + destruct (IH fnew ma' (S i)) as [L Fa]. split; [cbn [length]; rewrite L; reflexivity|]. constructor; [right; reflexivity | exact Fa].
+    + destruct (IH 0 ma' (S i)) as [L Fa]. split; [cbn [length]; rewrite L; reflexivity|]. constructor; [left; reflexivity | exact Fa].
 Qed.
 
 Lemma inner_row_length sc : forall scores prow maxa left diag bx cells maxa',
@@ -109,11 +111,11 @@ Proof.
   intros H1 H2. destruct s1 as [|[c10 i10] rest1]; [congruence|]. destruct s2 as [|c20 rest2]; [congruence|].
   unfold fill.
   set (s2 := c20 :: rest2) in *. set (s1 := (c10, i10) :: rest1) in *.
-  set (row0 := first_row sc (map (fun x => match_score sc which c10 (fst x) i10 (snd x)) s2) 0 0 0).
-  set (fcol := first_col sc (map (fun x => match_score sc which (fst x) (fst c20) (snd x) (snd c20)) s1) 0 0 0).
+  set (row0 := first_row sc (map (fun x => match_score sc which c10 (fst x) i10 (snd x)) s2) 0 None 0).
+  set (fcol := first_col sc (map (fun x => match_score sc which (fst x) (fst c20) (snd x) (snd c20)) s1) 0 None 0).
   cbv zeta.
-  destruct (first_row_spec sc (map (fun x => match_score sc which c10 (fst x) i10 (snd x)) s2) 0 0 0) as [Lr Fr]. fold row0 in Lr, Fr.
-  destruct (first_col_spec sc (map (fun x => match_score sc which (fst x) (fst c20) (snd x) (snd c20)) s1) 0 0 0) as [Lc Fc]. fold fcol in Lc, Fc.
+  destruct (first_row_spec sc (map (fun x => match_score sc which c10 (fst x) i10 (snd x)) s2) 0 None 0) as [Lr Fr]. fold row0 in Lr, Fr.
+  destruct (first_col_spec sc (map (fun x => match_score sc which (fst x) (fst c20) (snd x) (snd c20)) s1) 0 None 0) as [Lc Fc]. fold fcol in Lc, Fc.
   rewrite map_length in Lr, Lc.
   set (n1 := Z.of_nat (length s1)). set (n2 := Z.of_nat (length s2)).
   assert (Hn1 : 0 < n1) by (unfold n1, s1; cbn [length]; lia).
